@@ -82,7 +82,7 @@ def is_num(t):
 
 
 def mangle(name):
-    out = name.replace(".", "_")
+    out = name.replace(".", "_").replace("['", "_").replace("']", "")
     if out in ("end", "at", "from", "fun", "open", "in", "then", "else", "do", "let", "have", "show", "by", "with",
                "match", "if", "structure", "def", "theorem", "instance", "where", "namespace", "section"):
         out += "_"
@@ -233,6 +233,11 @@ class Tr:
             raise TranslationError(f"attribute {src}")
         if isinstance(node, ast.Name):
             raise TranslationError(f"unknown name {node.id}")
+        if isinstance(node, ast.Subscript) and isinstance(node.slice, ast.Constant) and isinstance(node.slice.value, str):
+            key = f"{self.dotted(node.value)}[{node.slice.value!r}]"
+            if key in env:
+                return env[key]
+            raise TranslationError(f"unknown dictionary entry {src}")
         if isinstance(node, ast.Subscript):
             base, tb = self.expr(node.value, env)
             idx = node.slice
@@ -840,6 +845,19 @@ def _assignments_to(*targets, guards=()):
                     out.append(s)
         if not out:
             raise TranslationError("no assignment to " + ", ".join(targets))
+        # nothing else in the function (at any depth) may assign to these targets
+        n_all = 0
+        for node in ast.walk(fn):
+            tl = node.targets if isinstance(node, ast.Assign) else [node.target] if isinstance(node, (ast.AugAssign, ast.AnnAssign)) else []
+            for t in tl:
+                for el in (t.elts if isinstance(t, ast.Tuple) else [t]):
+                    try:
+                        if ast.unparse(el) in targets:
+                            n_all += 1
+                    except Exception:
+                        pass
+        if n_all != len(out):
+            raise TranslationError(f"{n_all - len(out)} further assignment(s) to {targets} outside the translated statements")
         return out
     return sel
 
@@ -1007,6 +1025,24 @@ SPECS = [
     dict(name="bil_resample", file="pyresample/bilinear/_base.py", func="_resample",
          params=[("corner_points", tup(RAT, RAT, RAT, RAT)), ("fractional_distances", tup(RAT, RAT))],
          returns=RAT, select=_whole, owners=["C06"]),
+    # ---- C20 -----------------------------------------------------------------------------------
+    dict(name="cf_axis_info", file="pyresample/utils/cf.py", func="_load_cf_axis_info", mode="fragment",
+         params=[("first", RAT), ("last", RAT), ("nb", INT)], outputs=["delta", "spacing", "sign"],
+         output_types={"delta": RAT, "spacing": RAT, "sign": RAT},
+         select=_assignments_to("delta", "spacing", "sign",
+                                guards=["first = nc_handle[coord_varname][0].item()", "last = nc_handle[coord_varname][-1].item()",
+                                        "nb = len(nc_handle[coord_varname])",
+                                        "return {'first': first, 'last': last, 'spacing': spacing, 'nb': nb, 'sign': sign, 'unit': unit}"]),
+         owners=["C20"]),
+    dict(name="cf_extent", file="pyresample/utils/cf.py", func="_get_area_extent_from_cf_axis",
+         params=[("x['first']", RAT), ("x['last']", RAT), ("x['sign']", RAT), ("x['spacing']", RAT),
+                 ("y['first']", RAT), ("y['last']", RAT), ("y['sign']", RAT), ("y['spacing']", RAT)],
+         returns=tup(RAT, RAT, RAT, RAT), select=_whole, owners=["C20"]),
+    dict(name="cartopy_bounds", file="pyresample/geometry.py", func="AreaDefinition.to_cartopy_crs", mode="fragment",
+         params=[("self.area_extent", tup(RAT, RAT, RAT, RAT))], outputs=["bounds"], output_types={"bounds": tup(RAT, RAT, RAT, RAT)},
+         select=_from_stmt("bounds = (self.area_extent[0], self.area_extent[2], self.area_extent[1], self.area_extent[3])",
+                           upto="from pyresample.utils.cartopy import Projection"),
+         post_guard=["crs = Projection(self.crs, bounds=bounds)", "return crs"], owners=["C20"]),
     # ---- C13 -----------------------------------------------------------------------------------
     dict(name="round_shape", file="pyresample/area_config.py", func="_round_shape",
          params=[("shape", tup(RAT, RAT))], returns=tup(INT, INT), assume={"shape is None": False, "incorrect_shape": False},
@@ -1040,6 +1076,10 @@ def generate(repo=REPO):
             fn = find_def(trees[spec["file"]], spec["func"])
             if "guard" in spec and not spec["guard"](fn):
                 raise TranslationError("the statements that precede the translated part changed (guard)")
+            have = {ast.dump(st) for st in fn.body}
+            for g in spec.get("post_guard", []):
+                if ast.dump(ast.parse(g).body[0]) not in have:
+                    raise TranslationError(f"expected statement `{g}` not found")
             stmts = spec["select"](fn)
             tr = Tr3(spec, fn)
             lean = tr.translate(stmts)
